@@ -200,6 +200,29 @@ pub fn generate(g: &mut Gen, thorough: bool) {
             case(g, "plain", def, "F", "geo3", 5e-6, &pts, "gridshift", false);
         }
     }
+    // several grids: points next to the border of the grid that has priority (55.5-57.5 N, 11-13 E), so that the
+    // shift (about 1.7 km) carries them across it: the inverse must use the grid list as the forward does
+    {
+        let def = "gridshift grids=test_subset.datum,test.datum";
+        let mut pts: Vec<[f64; 4]> = vec![];
+        for off in [1e-6f64, 2e-5, 1e-4, 2.5e-4, 4e-4] {
+            for s in [-1.0, 1.0] {
+                let o = s * off;
+                pts.push([12f64.to_radians(), 57.5f64.to_radians() + o, 0.0, 2000.0]);
+                pts.push([12f64.to_radians(), 55.5f64.to_radians() + o, 0.0, 2000.0]);
+                pts.push([11f64.to_radians() + o, 56.5f64.to_radians(), 0.0, 2000.0]);
+                pts.push([13f64.to_radians() + o, 56.5f64.to_radians(), 0.0, 2000.0]);
+                pts.push([13f64.to_radians() + o, 57.5f64.to_radians() + o, 0.0, 2000.0]);
+            }
+        }
+        for chunk in pts.chunks(10) {
+            case(g, "plain", def, "F", "geo3", 5e-6, chunk, "gridshift-several-grids", false);
+            case(g, "plain", def, "I", "geo3", 5e-6, chunk, "gridshift-several-grids-inv-first", false);
+            let grids = super::shipped_grids_of(def);
+            g.push(super::opg_line(&grids, &format!("{def} | {def} inv"), "apply", "F", &data_of(chunk)), "model-grid-roundtrip", true);
+            g.push(super::opg_line(&grids, def, "apply", "I", &data_of(chunk)), "model-grid-inverse", true);
+        }
+    }
     // whole pipelines and macros of invertible steps
     for _ in 0..(rounds * 2) {
         let zone = 28 + g.rng.below(8);
